@@ -262,7 +262,24 @@ def run(ctx):
             rks, cks = row_keys(n_), col_keys(d_, curnames)
             rk = rks[int(rng.integers(len(rks)))]
             ck = cks[int(rng.integers(len(cks)))]
-            trace.append(repr(freeze(mk_key(rk, ck)))[:80])
+            # (bias toward the sequences that rearrange columns without changing their number, followed by a name)
+            if d_ >= 2 and rng.random() < 0.2:
+                ck = [slice(None, None, -1), list(range(d_))[::-1], [curnames[i] for i in range(d_)][::-1]][int(rng.integers(3))]
+                rearranged = True
+            elif step and trace and trace[-1].startswith('rearranged') and rng.random() < 0.7:
+                ck = curnames[int(rng.integers(d_))] if rng.random() < 0.6 else [curnames[int(rng.integers(d_))], 0]
+                rearranged = False
+            else:
+                rearranged = False
+            # history on the same object: a few name-based queries before the judged expression (a lookup table built by
+            # one query must not be handed to, or survive in, objects whose columns are arranged differently)
+            if len(set(curnames)) == len(curnames) and rng.random() < 0.6:
+                for _ in range(int(rng.integers(1, 3))):
+                    nm_ = curnames[int(rng.integers(len(curnames)))]
+                    w_ = int(rng.integers(3))
+                    core.attempt(lambda: (cur[:, nm_], cur.range(nm_), cur.detector_voltage([nm_]))[w_])
+                trace.append('warm-up')
+            trace.append(('rearranged ' if rearranged else '') + repr(freeze(mk_key(rk, ck)))[:80])
             ctx.counters['chk:chain'] += 1
             r = judge_get(ctx, cid, cur, curA, currecs, curnames, rk, ck, mech='chain')
             if r is None:
